@@ -19,7 +19,7 @@ CHECK = dict(
             dict(name="accept", run="^TestVerifC17Accept$", quick=5000, thorough=200000, shards_quick=1, shards_thorough=2),
             dict(name="acceptseq", run="^TestVerifC17AcceptSeq$", quick=3000, thorough=120000, shards_quick=1, shards_thorough=2),
             dict(name="sockets", run="^TestVerifC17Sockets$", quick=2000, thorough=80000, shards_quick=3, shards_thorough=6, timeout_quick=900, timeout_thorough=3000),
-            dict(name="slowprobe", run="^TestVerifC17SlowProbe$", quick=150, thorough=4000, shards_quick=2, shards_thorough=4, timeout_quick=900, timeout_thorough=3000),
+            dict(name="slowprobe", run="^TestVerifC17SlowProbe$", quick=180, thorough=4800, shards_quick=3, shards_thorough=6, timeout_quick=900, timeout_thorough=3000),
             dict(name="history-race", run="^TestVerifC17History$", quick=2000, thorough=40000, shards_quick=1, shards_thorough=1, race=True),
             dict(name="sockets-race", run="^TestVerifC17Sockets$", quick=200, thorough=4000, shards_quick=1, shards_thorough=1, race=True, timeout_quick=900, timeout_thorough=3000),
         ]),
